@@ -362,3 +362,60 @@ Definition s_dup : schema :=
 (* since fix d645930 the second use of a value is refused when the class is defined *)
 Lemma dup_rejected : valid s_dup = false.
 Proof. reflexivity. Qed.
+
+(* ------------------------------------------------------------------ lookup by pk when the identity map already holds the object or a seed *)
+Lemma issub_family s : valid s = true -> forall a b, issub s a b = true <-> family s b a.
+Proof.
+  intros Hv a b. unfold issub, family. rewrite orb_true_iff, Nat.eqb_eq, nmem_In, all_bases_anc by assumption. reflexivity.
+Qed.
+
+Lemma issub_false_family s : valid s = true -> forall a b, issub s a b = false <-> ~ family s b a.
+Proof.
+  intros Hv a b. rewrite <- (issub_family s Hv). destruct (issub s a b); split; intros H; try discriminate; try reflexivity; now elim H.
+Qed.
+
+(* a loaded object: right for every entity the lookup goes through *)
+Lemma find_loaded s : valid s = true -> forall e real, find_in_cache s true e real false real = lookup_spec s e real.
+Proof.
+  intros Hv e real. unfold find_in_cache, lookup_spec.
+  destruct (subclasses s real) as [|c0 cs]; [reflexivity|].
+  destruct (negb (issub s e real) && negb (issub s real e)) eqn:E; [|reflexivity].
+  apply andb_true_iff in E as [_ E2]. apply negb_true_iff in E2. now rewrite E2.
+Qed.
+
+(* a seed typed cur (an ancestor of the real class, or the class itself): right whenever e and cur lie on one line of descent *)
+Lemma find_seed s : valid s = true -> forall e cur real, family s cur real ->
+  (issub s e cur = true \/ issub s cur e = true) ->
+  find_in_cache s true e cur true real = lookup_spec s e real.
+Proof.
+  intros Hv e cur real Hf Hrel. unfold find_in_cache, lookup_spec.
+  destruct (subclasses s cur) as [|c0 cs] eqn:Es.
+  - (* no subclasses: the seed already has the real class *)
+    assert (real = cur) as ->; [|reflexivity].
+    destruct Hf as [->|Ha]; [reflexivity|]. apply (subclasses_anc s Hv) in Ha. rewrite Es in Ha. contradiction.
+  - replace (negb (issub s e cur) && negb (issub s cur e)) with false by (destruct Hrel as [H|H]; rewrite H; cbn; now rewrite ?andb_false_r).
+    now rewrite (refine_exact s Hv cur real Hf).
+Qed.
+
+(* on a single line of descent (no multiple inheritance above the real class) the side condition always holds when the lookup should succeed *)
+Lemma find_seed_found s : valid s = true -> forall e cur real, family s cur real -> family s e real ->
+  (issub s e cur = true \/ issub s cur e = true) -> find_in_cache s true e cur true real = Found real.
+Proof.
+  intros Hv e cur real Hf He Hrel. rewrite (find_seed s Hv e cur real Hf Hrel). unfold lookup_spec.
+  apply (issub_family s Hv) in He. now rewrite He.
+Qed.
+
+(* witness: diamond A; B(A); C(A); D(B,C).  A seed typed B for a stored D hides it from a lookup through C *)
+Definition s_abcd : schema :=
+  [ {| d_bases := [1; 2]; d_discr := 30 |}; {| d_bases := [0]; d_discr := 20 |}; {| d_bases := [0]; d_discr := 10 |}; {| d_bases := []; d_discr := 0 |} ].
+Lemma seed_sibling_hides : valid s_abcd = true /\ find_in_cache s_abcd true 2 1 true 3 = NotFound /\ lookup_spec s_abcd 2 3 = Found 3.
+Proof. repeat split; reflexivity. Qed.
+(* a falsy discriminator value (0 on the root) is a discriminator like any other *)
+Lemma seed_falsy_root : find_in_cache s_abcd true 1 0 true 1 = Found 1 /\ find_in_cache s_abcd true 1 0 true 0 = NotFound.
+Proof. split; reflexivity. Qed.
+
+(* the same diamond: an object in the identity map as a K1-typed seed is met again through a K2-typed reference: class change error *)
+Lemma refine_sibling_types : refine s_abcd 1 2 = None /\ family s_abcd 1 3 /\ family s_abcd 2 3.
+Proof.
+  repeat split; try reflexivity; right; apply (all_bases_anc s_abcd (proj1 seed_sibling_hides)); cbn; auto.
+Qed.
